@@ -56,6 +56,7 @@ func biasC04() Bias {
 	b.PCopies = [4]int{45, 45, 8, 2}
 	b.PInTransfer = 10
 	b.MinShards = 1
+	b.PRecovering = 20
 	return b
 }
 
